@@ -67,6 +67,31 @@ func (r *Run) StepCount() int { return r.steps }
 // Active returns the run in progress (nil = pass-through mode).
 func Active() *Run { return active }
 
+// IOHook, when set by a harness, observes every IOPoint: once when the thread
+// arrives (resumed=false: everything the I/O call will read is prepared) and
+// once when it holds the baton again and is about to perform the call
+// (resumed=true). It runs on the thread holding the baton.
+var IOHook func(r *Run, t *Thread, kind string, resumed bool)
+
+// IOPoint is the scheduling point that an overlay patch (vk unit key "patch")
+// places immediately BEFORE a real I/O call of the code under test (never
+// inside it: a thread must not yield while it holds a runtime-level fd lock).
+// With no controlled run active it does nothing.
+func IOPoint(kind string) {
+	r := active
+	if r == nil || r.aborted {
+		return
+	}
+	t := r.running
+	if IOHook != nil {
+		IOHook(r, t, kind, false)
+	}
+	r.Point("io:" + kind)
+	if IOHook != nil {
+		IOHook(r, t, kind, true)
+	}
+}
+
 type abortSentinel struct{}
 
 // Go registers a managed thread. Must be called before Start (from the setup function).
